@@ -203,7 +203,8 @@ type Stream struct {
 }
 
 // NewStream makes an entropy stream from a seed.
-func NewStream(seed uint64) *Stream { return &Stream{x: seed | 1} }
+// (distinct seeds give distinct streams: seed|1 would pair every even seed with its successor)
+func NewStream(seed uint64) *Stream { return &Stream{x: seed<<1 | 1} }
 
 //go:norace
 func (s *Stream) Read(p []byte) (int, error) {
